@@ -59,7 +59,7 @@ def _run_one(sec, case):
         r = {"ok": False, "inconclusive": "horizon %ss exceeded" % sec.horizon}
     except Exception as e:  # a crash of the oracle/harness or an unexpected library exception
         tb = traceback.extract_tb(e.__traceback__)
-        if tb and tb[-1].filename.startswith(_VERIF_DIR) and isinstance(e, (ImportError, NameError, AttributeError, KeyError, IndexError, TypeError, AssertionError)):
+        if tb and tb[-1].filename.startswith(_VERIF_DIR) and isinstance(e, (ImportError, NameError, AttributeError, KeyError, IndexError, TypeError, AssertionError, ValueError, ZeroDivisionError)):
             # raised by harness code itself (not inside the library): a harness error, never a verdict
             return {"ok": False, "inconclusive": "harness exception %s: %s at %s:%d" % (type(e).__name__, e, tb[-1].filename, tb[-1].lineno), "_t": time.time() - t0}
         r = {"ok": False, "msg": "unexpected exception %s: %s" % (type(e).__name__, e),
